@@ -11,6 +11,7 @@ func vNondetHexString(name string, n int) string { return string(make([]byte, n)
 func vAssume(b bool)                             {}
 func vObserve(name string, v interface{})        {}
 func vFreeze(v interface{})                      {}
+func vFlag(name string) bool { return false }
 func vHavoc(v interface{}, name string)          {}
 func vTagArg(v interface{}, name string)         {}
 func vTagRecv(v interface{}, name string)        {}
